@@ -18,16 +18,29 @@ CLAUSES = {
     "C01": {"rejected-conforming", "accepted-nonconforming", "image"},
     "C02": {"errors-missing", "errors-spurious", "errors-duplicate", "errors-order"},
     "C03": {"escape", "mutated"},
+    # on union types, every observable belongs to the union property
+    "C13": {"rejected-conforming", "accepted-nonconforming", "image", "errors-missing", "errors-spurious", "escape"},
+    # under coercion, likewise
+    "C14": {"rejected-conforming", "accepted-nonconforming", "image", "errors-missing", "errors-spurious", "escape"},
 }
 
 MC_CFG = """CONSTANT Tier = "%s"
+CONSTANT Coerce = FALSE
+CONSTANT Deviations = {}
 SPECIFICATION Spec
 INVARIANT ResultShape
 INVARIANT LocsInData
 INVARIANT AdditionalWidens
 INVARIANT NoUnexpectedWhenAllowed
 INVARIANT CoerceWidens
+INVARIANT DispatchEqSequential
 """
+
+
+def identity_coercer(cls, data):
+    """A custom coercer that coerces nothing: its result is still type-checked, so
+    deserialize(T, d, coerce=identity_coercer) must behave exactly as strict mode (C14)."""
+    return data
 
 
 def case_summary(c: dict, out: dict) -> dict:
@@ -35,16 +48,25 @@ def case_summary(c: dict, out: dict) -> dict:
             "expected": c.get("expect"), "actual": {k: out[k] for k in ("kind", "v", "errs", "exc") if k in out}}
 
 
-def run(prop: str, rep: common.Report, *, exotic: bool = False):
+def run(prop: str, rep: common.Report, *, exotic: bool = False, coerce: bool = False,
+        tiers_quick=("d0", "d1"), tiers_thorough=("d0", "d1", "d2"), only_unions: bool = False,
+        identity_coercer_pass: bool = False, negative: dict = None):
     mine = CLAUSES[prop]
     thorough = common.tier() == "thorough"
-    tiers = ["d0", "d1", "d2"] if thorough else ["d0", "d1"]
+    tiers = list(tiers_thorough if thorough else tiers_quick)
+    for dev, inv in (negative or {}).items():
+        cfg = (MC_CFG % "u").replace("Deviations = {}", 'Deviations = {"%s"}' % dev)
+        res = tlc.run_tlc("MC_Deser", cfg, workers=16, env={"EMIT": "0"}, timeout_s=3000)
+        rep.set("negative_check_" + dev, res.violated or "NOT VIOLATED")
+        if res.violated != inv:
+            raise tlc.MachineryError(f"negative model check: deviation {dev} no longer violates {inv}")
     states = transitions = 0
     nontrivial: Set[str] = set()
     replayed = 0
     other = 0
     for t in tiers:
-        res = tlc.run_tlc("MC_Deser", MC_CFG % t, workers=16, env={"EMIT": "1"}, timeout_s=3000)
+        cfg = (MC_CFG % t).replace("Coerce = FALSE", "Coerce = TRUE") if coerce else MC_CFG % t
+        res = tlc.run_tlc("MC_Deser", cfg, workers=16, env={"EMIT": "1"}, timeout_s=3000)
         if res.violated:
             rep.violation(f"TLC: invariant {res.violated} of the reference semantics violated on tier {t}",
                           {"tlc": res.error_trace[:40]})
@@ -52,7 +74,10 @@ def run(prop: str, rep: common.Report, *, exotic: bool = False):
         states += res.distinct
         transitions += res.states
         header, cases = replay_deser.parse_emitted(res.prints)
-        for c, out, vd in replay_deser.replay(header, cases):
+        if only_unions:
+            cases = [c for c in cases if replay_deser.has_union(c["type"], header["classes"])]
+        passes = [None, identity_coercer] if identity_coercer_pass else [None]
+        for c, out, vd in (x for cz in passes for x in replay_deser.replay(header, cases, custom_coercer=cz)):
             replayed += 1
             if out.get("mutated") and "mutated" in mine:
                 rep.violation("input data modified by deserialize", case_summary(c, out))
@@ -75,7 +100,9 @@ def run(prop: str, rep: common.Report, *, exotic: bool = False):
         validated = 0
         for r in range(rounds):
             ctxs, events = drive_deser.make_events(common.seed() * 1000 + r, n_ctx, per, exotic=exotic,
-                                                   coerce=exotic)
+                                                   coerce=exotic or coerce)
+            if only_unions:
+                events = [e for e in events if replay_deser.has_union(e["type"], ctxs[e["cx"] - 1]["C"])]
             tres, mism, _ = drive_deser.validate(ctxs, events, wd)
             if not tres.ok:
                 raise tlc.MachineryError("trace validation did not complete\n" + tres.raw_tail)
